@@ -30,6 +30,7 @@ REPLAY_DIR = Path(os.environ.get("VERIF_REPLAY_DIR") or ROOT / "replays")
 WORK_DIR = ROOT / ".work"
 KNOWN_FILE = ROOT / "known_findings.json"
 
+PER_KEY_KEEP = 6
 MAX_FAIL_KEEP = 40  # failures kept in full
 MAX_SAMPLES = 6
 
@@ -132,7 +133,8 @@ class Monitor:
             self.classes[f"{point}|{cls}"] += 1
         self.n_fail += 1
         self.fail_keys[key or f"?{point}"] += 1
-        if len(self.failures) < MAX_FAIL_KEEP or (key and sum(1 for f in self.failures if f.key == key) == 0):
+        # witnesses are kept per key (mechanism), so that thousands of reproductions of a known finding can never crowd out the one unknown violation
+        if sum(1 for f in self.failures if f.key == key) < PER_KEY_KEEP:
             case = self.case
             if case is None:
                 from . import attach
@@ -187,7 +189,7 @@ class Monitor:
         self.errors.extend(d["errors"][: max(0, 10 - len(self.errors))])
         self.n_errors += d["n_errors"]
         for f in d["failures"]:
-            if len(self.failures) < MAX_FAIL_KEEP * 2:
+            if sum(1 for g in self.failures if g.key == f["key"]) < PER_KEY_KEEP:
                 self.failures.append(Failure(f["point"], f["witness"], f["key"], f["case"]))
         self.n_fail += d["n_fail"]
         self.fail_keys.update(d["fail_keys"])
@@ -244,6 +246,13 @@ class Monitor:
                 replay_paths.append(str(path))
                 if len(replay_paths) >= 8:
                     break
+
+            if not replay_paths:
+                # cannot happen with per-key retention; never exit 1 without the VIOLATION line the interface promises
+                path = REPLAY_DIR / f"{self.pid}-nowitness-{self.seed}.json"
+                path.write_text(json.dumps({"property": self.pid, "tier": self.tier, "seed": self.seed, "point": None, "key": None, "case": None,
+                                            "witness": {"violation_keys": {k: c for k, c in self.fail_keys.items() if k not in known}}}, indent=1))
+                replay_paths.append(str(path))
 
         verdict = "violated" if n_viol else ("inconclusive" if self.inconclusive_reasons else "held")
         samples = self.samples[:MAX_SAMPLES] or [{"note": "no sample recorded"}]
